@@ -9,6 +9,7 @@ import ZorgVerif.Gen.QueryLexer
 import ZorgVerif.Model.Query
 import ZorgVerif.Model.Sql
 import ZorgVerif.Model.Exec
+import ZorgVerif.Model.Saved
 /-! Line protocol: one JSON request per line on stdin, one JSON answer per line on stdout. -/
 open Lean ZorgVerif
 
@@ -304,6 +305,18 @@ def handleExec (op : String) (j : Json) : Except String Json := do
         else pure (Json.mkObj [("text", jstr (Exec.exec qq ns)), ("tree", treeJson (Exec.execTree qq ns))])
   | _ => throw s!"unknown op {op}"
 
+def handleSaved (op : String) (j : Json) : Except String Json := do
+  match op with
+  | "saved.expand" =>
+    let files ← varsOf (← j.getObjVal? "files")
+    let q ← strOf j "query"
+    let fuel ← j.getObjValAs? Nat "fuel"
+    let σ : Str → Option Str := fun nm => files.lookup nm
+    match Saved.expand σ fuel q.toList with
+    | some r => pure (Json.mkObj [("ok", jstr r)])
+    | none => pure (Json.mkObj [("none", true)])
+  | _ => throw s!"unknown op {op}"
+
 def handle (line : String) : Json :=
   match Json.parse line with
   | .error e => Json.mkObj [("driver_error", s!"parse: {e}")]
@@ -320,6 +333,7 @@ def handle (line : String) : Json :=
         else if op.startsWith "query." then handleQuery op j
         else if op.startsWith "filter." then handleFilter op j
         else if op.startsWith "exec." then handleExec op j
+        else if op.startsWith "saved." then handleSaved op j
         else .error s!"unknown op {op}"
       match r with
       | .ok v => v
